@@ -104,5 +104,5 @@ HARNESSES = {
         replay=dict(kind="hash_addrs")),
     "address_plumbing": dict(props=["C17"], crates=CR, fn=address_plumbing, witnesses=["ok"],
         bound_text="predicate of 0..1 nodes / 0..1 edges, program of 0..2 bytes, contract of one predicate with symbolic salt; SHA-256 uninterpreted",
-        replay=dict(kind="hash_addrs")),
+        replay=dict(kind="hash_solution_diff", differential=True)),
 }
